@@ -752,6 +752,11 @@ def run(tier):
               'base), so the designated identities exist in it (shared '
               'with C05.R4)', sub05)
     chk.guard(rule_r11, chk, prog)
+    from .. import depthrec
+    chk.guard(depthrec.report, chk, prog, 'C11.R12',
+              'no function of the tree core that applies a simplification recurses over the nesting depth (directly, through helpers, generators, tuple comparison, deepcopy or the generic pickler)',
+              [('nodes', 'substitute'), ('nodes', 'Node.__eq__'), ('nodes', 'Node.__hash__')],
+              'substitute raises RecursionError for deep terms: the designated subtrees are not replaced')
     extra = None
     if tier == 'thorough':
         from .. import selftest
